@@ -31,6 +31,10 @@ class SimBootTarget:
         self.forced = None       # optional list of outcomes for flash-write commands (directed sweep)
         self.link = None
         self.chatter_sent = 0
+        self.resets = []
+        self.after_reset = {}    # tid -> geometry fields that change once a new bootloader+softdevice has been flashed
+        self.sd_written = {}     # tid -> True once the top-of-flash region has been written
+        self.sd_region = {}      # tid -> first page of the bootloader+softdevice region
 
     def chatter(self, kind, tid):
         """An unrelated downlink packet: console text, a late info reply, or the other target's flash-write reply."""
@@ -62,7 +66,18 @@ class SimBootTarget:
         g = self.t.get(tid)
         if g is None:
             return
-        if cmd == 0x10:
+        if cmd == 0xFF:
+            # reset request: answered on the link port with the 4 address bytes the bootloader will listen on
+            self.resets.append((self.sim.now, tid, 'init'))
+            link.downlink(0xFF, bytes([tid, 0xFF, 0x11, 0x22, 0x33, 0x44, 0x00]))
+        elif cmd == 0xF0:
+            self.resets.append((self.sim.now, tid, 'boot' if len(data) > 2 and data[2] == 0 else 'fw'))
+            if len(data) > 2 and data[2] == 0 and self.after_reset:
+                # the (new) bootloader comes up: geometry as it reports it from now on
+                for t2, upd in self.after_reset.items():
+                    if self.sd_written.get(t2):
+                        self.t[t2].update(upd)
+        elif cmd == 0x10:
             out = struct.pack('<BBHHHH', tid, 0x10, g['page_size'], g['buffer_pages'], g['flash_pages'], g['start_page'])
             out += bytes(range(1, 13)) + bytes([g.get('proto', 0x10)])
             link.downlink(0xFF, out)
@@ -99,6 +114,8 @@ class SimBootTarget:
             ps = g['page_size']
             for i in range(n):
                 g['flash'][(fpage + i) * ps:(fpage + i + 1) * ps] = g['buffers'][bpage + i]
+            if tid in self.sd_region and fpage + n > self.sd_region[tid]:
+                self.sd_written[tid] = True
             if outcome == 2:
                 return
             link.downlink(0xFF, bytes([tid, 0x18, 1, 0]))
